@@ -22,9 +22,10 @@ def register(prop, TB_COMMON):
 
 
 def stack_probe(cfg, tier, seed, workdir, env):
-    """C16, stack clause, impl only — regression test of finding DI2 (fixed by 4f1981f): documents WITHOUT bracket
-    nesting that carry a chain of 40 000 (thorough: 100 000) `-` signs; `IntConstant::parse` used to recurse once per sign
-    and exhaust a 2 MiB stack.  Run in a process of its own; a death is an oracle failure (a violation again)."""
+    """C16, stack clause, impl only: documents with bracket nesting <= 2 that are long in ONE direction (about 64 KiB each: runs of
+    comments of the three styles, blanks, items, fields, enum values, list / map elements, string characters, annotations, path
+    segments, digits; and the chain of `-` signs of finding DI2, fixed by 4f1981f).  Stack use must not grow with such a length.
+    Each runs in a process of its own; a death is an oracle failure."""
     import os, subprocess
     verif = os.path.dirname(os.path.dirname(os.path.abspath(__file__)))
     rt = os.path.join(verif, "target", "cargo", "debug", "rt")
@@ -35,6 +36,6 @@ def stack_probe(cfg, tier, seed, workdir, env):
         ans = p.stdout.strip().split("\n")[0] if p.returncode == 0 else "abort"
         samples.append({"request": q[:120] + "…", "impl": ans[:80]})
         if p.returncode != 0:
-            fails.append(("C16-stack", q, "C16,PANIC", "process died (rc=%d): stack exhausted on a 2 MiB thread by a chain of '-' signs, bracket nesting 0" % p.returncode, ans))
+            fails.append(("C16-stack", q, "C16,PANIC", "process died (rc=%d): a 2 MiB thread is exhausted by a document that is long in one direction only (bracket nesting <= 2)" % p.returncode, ans))
     extra = {"stack_probe": {"requests": len(reqs), "deaths": len(fails)}}
     return dict(evaluations=len(reqs), distinct=reqs, samples=samples, oracle_fails=fails, extra=extra)
